@@ -2,6 +2,8 @@ import vlib
 
 class P(vlib.Prop):
     id = "C08"
+    # a changed function in these files makes the quick tier run the stages at thorough size (about 4.5 min)
+    watch = ("pkg/apk/apk/shameful_global_caches.go", "pkg/apk/apk/repo.go", "pkg/apk/apk/index.go")
     rule = ("history stage: hand-picked histories first (every known-finding and fixed-finding replay - C08-F1/F3 install_if order and chain membership, fixed by c03e0c0 -; install_if chains, name=version keys, several packages per key; the scenarios the per-call clone, the copy of the disqualification map "
             "and the explicit tie-breaks exist for; positive controls), then generated histories of 3-6 ResolveWorld-style calls "
             "(NewPkgResolver + GetPackagesWithDependencies through the public API) over 2-4 shared index objects: the same index list under different worlds, "
